@@ -403,10 +403,15 @@ func runHost(line string, l []string, h string) core.Outcome {
 			o.Failures = append(o.Failures, core.Failure{Class: class, What: what})
 		}
 	}
-	nonASCII := !isASCII(h)
+	// class suffix: the one known residual concerns U+017F (long s) and U+0130 (dotted capital I),
+	// the only non-ASCII letters whose strings.ToLower / strings.EqualFold relation to an ASCII
+	// letter differs; any other non-ASCII request gets its own (unlisted) class
 	sfx := ""
-	if nonASCII {
-		sfx = "-nonascii-request"
+	switch {
+	case strings.Contains(h, "\u017f") || strings.Contains(h, "\u0130"):
+		sfx = ":request-has-U+017F-or-U+0130"
+	case !isASCII(h):
+		sfx = ":nonascii-request"
 	}
 	// ---- spelling: letter case
 	for mode := 0; mode < 3; mode++ {
@@ -697,6 +702,12 @@ func runPath(line string, l []string, p, e string) core.Outcome {
 		default:
 			o.Tags = append(o.Tags, "pat:exact")
 		}
+	}
+	if len(l) == 1 && len(o.Tags) > 0 {
+		o.Tags = append(o.Tags, "single-"+o.Tags[len(o.Tags)-1]+":"+base)
+	}
+	if !strings.HasPrefix(p, "/") {
+		o.Tags = append(o.Tags, "path:not-rooted")
 	}
 	if p != stdClean(p) {
 		o.Tags = append(o.Tags, "path:unclean-request")
